@@ -90,7 +90,7 @@ def set_loads(net, factor):
             net[t]["mdot_kg_per_s"] = net[t]["mdot_kg_per_s"].values * factor
 
 
-def run_variant(spec, factors, mode, use_numba, update, reuse, one_object):
+def run_variant(spec, factors, mode, use_numba, update, reuse, one_object, opts=None):
     """-> list of (status, snapshot or None) per load step"""
     out = []
     net = None
@@ -100,7 +100,7 @@ def run_variant(spec, factors, mode, use_numba, update, reuse, one_object):
             cum = 1.0
         set_loads(net, f / cum)
         cum = f
-        kw = dict(TIGHT, mode=mode, use_numba=use_numba, only_update_hydraulic_matrix=update, reuse_internal_data=reuse)
+        kw = dict(opts or TIGHT, mode=mode, use_numba=use_numba, only_update_hydraulic_matrix=update, reuse_internal_data=reuse)
         st, msg = drive.run(net, **kw)
         out.append((st, drive.snapshot_results(net) if st == "ok" else None, msg))
     return out
@@ -127,7 +127,8 @@ def diff_results(a, b):
     state (p, T, norm factors, powers): rtol 1e-8 + atol 1e-9;
     flow (mdot, vdot, v, Re): atol 1e-6 * max|column| + floor (1e-7 kg/s, 1e-4 m/s, Re 1): a branch with zero pressure
       difference has dp ~ m^2, so the Newton iteration determines m there only to ~sqrt(tolerance);
-    lambda: only where Re > 1 (64/Re of a numerically-zero flow is noise)."""
+    lambda: only where Re > 1 (64/Re of a numerically-zero flow is noise); rows of a branch table whose |mdot| <= 1e-6 kg/s
+    on both sides are compared in p / T only."""
     diffs = []
     for t in sorted(set(a) | set(b)):
         if t not in a or t not in b:
@@ -145,7 +146,13 @@ def diff_results(a, b):
             nums = [abs(x) for x in xa if isinstance(x, float)]
             scale = max(nums) if nums else 0.
             re_a = a[t]["cols"].get("reynolds")
+            ma, mb = a[t]["cols"].get("mdot_from_kg_per_s"), b[t]["cols"].get("mdot_from_kg_per_s")
             for p, (x, y) in enumerate(zip(xa, xb)):
+                if ma is not None and cls != "state" or c.startswith("dp_friction"):
+                    # a branch that does not flow (|m| <= 1e-6 kg/s in both runs): its velocity, Re, lambda and friction
+                    # loss are numerical noise (dp ~ m^2: m is determined only to ~sqrt(tolerance) there)
+                    if ma is not None and ma[p] is not None and mb[p] is not None and abs(ma[p]) <= 1e-6 and abs(mb[p]) <= 1e-6:
+                        continue
                 if x is None or y is None:
                     if x is not y:
                         diffs.append((t, c, a[t]["index"][p], "%r vs %r" % (x, y)))
@@ -164,13 +171,13 @@ def diff_results(a, b):
     return diffs
 
 
-def compare_all(spec, factors, mode, variants=VARIANTS):
+def compare_all(spec, factors, mode, variants=VARIANTS, opts=None):
     """-> (reference statuses, list of disagreements (variant, step, kind, detail, columns))"""
-    ref = run_variant(spec, factors, mode, False, False, False, False)
+    ref = run_variant(spec, factors, mode, False, False, False, False, opts)
     dis = []
     for name, nb, upd, reuse, one in variants:
         fs = factors if one or nb else factors[:1]       # a fresh net per step adds nothing after the first step
-        got = run_variant(spec, fs, mode, nb, upd, reuse, one)
+        got = run_variant(spec, fs, mode, nb, upd, reuse, one, opts)
         for step, ((rs, rsnap, _), (gs, gsnap, gmsg)) in enumerate(zip(ref, got)):
             if rs != gs:
                 dis.append((name, step, "status", "%s (reference: %s) %s" % (gs, rs, gmsg[:120]), [gs]))
